@@ -54,6 +54,11 @@ module.exports = mk({
     // modified bodies under the same byte variants (status must say modified, trailer present)
     const mods = ['function f(a, b) { return a + b }', 'function f(a) {\n  return a.trim()\n}\n', 'function f(s) { return s?.trim() }']
     for (const m of mods) for (const b of Object.keys(BYTE_VARIANTS)) for (const cfg of ['FULL', 'NOTHING']) { r.stats.states++; r.stats.transitions++; leaves.push({ fam: 'mod', key: 'md¦' + m + '¦' + b + '¦' + cfg, code: BYTE_VARIANTS[b](m), config: cfg, desc: 'mod:' + b }) }
+    // status logic must not depend on the telemetry implementation chosen by the verbosity
+    const F = require('../grammar/families')
+    for (const fam of [F.familyS(tier), F.familyM(tier)]) {
+      for (const l of fam.leaves) for (const verb of ['OFF', 'DEBUG', 'MANDATORY']) { r.stats.states++; r.stats.transitions++; leaves.push(Object.assign({}, l, { key: l.key + '¦verb=' + verb, config: Object.assign({}, C.FULL, { telemetryVerbosity: verb }) })) }
+    }
     return { leaves, stats: r.stats }
   },
   oracle ({ a, v, res, resp, leaf, config, code }) {
